@@ -40,7 +40,7 @@ def axis_triple(rng, big_ok=True, span=False):
 def cases(tier, seed):
     rng = random.Random('C05/%s' % seed)
     out = []
-    n = 120 if tier == 'quick' else 2000
+    n = 400 if tier == 'quick' else 3000
     for i in range(n):
         il, xl = axis_triple(rng, span=i % 10 == 3), axis_triple(rng, span=i % 10 == 7)
         while il[2] * xl[2] > 700:
